@@ -161,6 +161,8 @@ func c17(r *core.Run) {
 	}
 	r.Rule("G12", "the full pattern is composed when asked: the value Mux.FullPath returns (the prefix of every pattern handed to OnRegister and of every listener pattern) derives from the parent mux read at call time - a full path remembered at Mount time is stale for a mux that was mounted before its own parent was (nested Route calls mount inner-first): handlers added afterwards are told a pattern that does not match the names routed to them", 1)
 	c17FullPathFollowsParent(r, "G12")
+	r.Rule("G13", "a pattern is rendered into memory of its own: no function of the package stores into an element of a []string it was handed (or a re-slice of it) - the registration-time traversal shares one path buffer between all nodes, so placeholder names written into it in place leak into the patterns rendered for the nodes visited afterwards (a handler registered with `*` is told another handler's `$tag`)", 1)
+	c17NoElementStoreIntoStringSliceParam(r, "G13")
 	r.Rule("G9", "exact tokenisation: library code never splits with strings/bytes Fields or FieldsFunc (they drop empty tokens, so names with empty tokens are routed like other names and a separators-only name has no first token) and never strips a variable prefix with a cutset function (Trim, TrimLeft, TrimRight)", 1)
 	c17ExactTokens(r, "G9", []string{"", "store", "store/badgerstore", "store/mockstore", "resprot", "middleware", "middleware/resbadger"}, "library")
 	r.Rule("G8", "the pattern handed out at registration is the pattern routed (shared with C06.R11): the registration-time traversal that reconstructs a handler's pattern rebinds the mount index at mount points, as the matcher does; otherwise a handler below a nested mount is told a pattern with its placeholder on another token, and id -> resource id -> id through the transformers is no longer the identity", 2)
@@ -821,4 +823,51 @@ func c17FullPathFollowsParent(r *core.Run, rule string) {
 		}
 	}
 	r.Check(found && n > 0, rule, core.FuncName(fp), "result-derives-from-the-parent-link", p.Pos(fp.Pos()), "a value read through the parent mux flows into the result", "no result of FullPath depends on anything read through the parent mux: the path of the parents is not followed at call time (a prefix stored at Mount time is a snapshot - wrong for every mux mounted before its parent was attached)")
+}
+
+// c17NoElementStoreIntoStringSliceParam is C17.G13.
+func c17NoElementStoreIntoStringSliceParam(r *core.Run, rule string) {
+	p := r.P
+	var fromParam func(v ssa.Value, d int) *ssa.Parameter
+	fromParam = func(v ssa.Value, d int) *ssa.Parameter {
+		if d > 5 {
+			return nil
+		}
+		switch x := core.Strip(v).(type) {
+		case *ssa.Parameter:
+			if sl, ok := x.Type().Underlying().(*types.Slice); ok && isStringType(sl.Elem()) {
+				return x
+			}
+		case *ssa.Slice:
+			return fromParam(x.X, d+1)
+		case *ssa.Phi:
+			for _, e := range x.Edges {
+				if q := fromParam(e, d+1); q != nil {
+					return q
+				}
+			}
+		}
+		return nil
+	}
+	n, bad := 0, 0
+	for _, fn := range p.FuncsOfPkg("") {
+		for _, in := range instrsOf(fn) {
+			st, ok := in.(*ssa.Store)
+			if !ok {
+				continue
+			}
+			ia, ok := st.Addr.(*ssa.IndexAddr)
+			if !ok {
+				continue
+			}
+			n++
+			if prm := fromParam(ia.X, 0); prm != nil {
+				bad++
+				r.Bad(rule, core.FuncName(fn), "no-element-store-into-the-[]string-parameter("+prm.Name()+")", p.InstrPos(st), "an element of the []string parameter "+prm.Name()+" is overwritten in place: the caller's slice (the traversal's shared path buffer) keeps the value, so what is rendered for the nodes visited afterwards contains this node's placeholder names")
+			}
+		}
+	}
+	if bad == 0 {
+		r.OK(rule, "library", "no-element-store-into-a-[]string-parameter", "-", fmt.Sprintf("%d element stores scanned: none goes into a []string parameter", n))
+	}
 }
